@@ -211,6 +211,10 @@ func c01ParseReply(reply string) (bool, []c01Diff, string) {
 	if strings.HasPrefix(reply, "ok") {
 		return true, nil, ""
 	}
+	if strings.HasPrefix(reply, "skip ") {
+		// outside the domain of den (e.g. split collections of different sizes)
+		return false, nil, reply
+	}
 	if !strings.HasPrefix(reply, "diff\t") {
 		return false, nil, reply
 	}
@@ -295,20 +299,11 @@ func c01IsRowDup(d c01Diff) bool {
 
 func c01Shape(src string) string {
 	var tags []string
-	n := strings.Count(src, "map call ")
-	if n >= 2 {
-		tags = append(tags, "maps")
-	} else if n == 1 {
+	if strings.Contains(src, "map call ") {
 		tags = append(tags, "map")
 	}
 	if strings.Contains(src, "disabled") {
 		tags = append(tags, "disabled")
-	}
-	if strings.Contains(src, ") split (") {
-		tags = append(tags, "splitstage")
-	}
-	if strings.Count(src, "\npipeline ") >= 2 {
-		tags = append(tags, "nested")
 	}
 	if len(tags) == 0 {
 		return "plain"
@@ -325,6 +320,9 @@ func c01KeyFor(ds []c01Diff, src string) string {
 	}
 	if all {
 		return "C01:F14-merge-duplicates-outer-rows"
+	}
+	if strings.HasPrefix(ds[0].Class, "chunk-") {
+		return "C01:" + ds[0].Class
 	}
 	return "C01:" + ds[0].Class + ":" + c01Shape(src)
 }
@@ -368,9 +366,9 @@ func runC01(c *Ctx) {
 	r := c.Res
 	r.Rule = "program with >=1 map call or disabled binding, >=2 jobs, run to completion; distinct by (program, order in which jobs finished)"
 	start := time.Now()
-	nGen, nSched := 170, 2
+	nGen, nSched := 300, 2
 	if c.Thorough {
-		nGen, nSched = 1500, 3
+		nGen, nSched = 3000, 3
 	}
 	if v := os.Getenv("C01_NGEN"); v != "" {
 		fmt.Sscan(v, &nGen)
@@ -453,6 +451,10 @@ func runC01(c *Ctx) {
 			nontrivial := (strings.Contains(cs.src, "map call ") || strings.Contains(cs.src, "disabled")) && len(res.Jobs) >= 2
 			r.count(fmt.Sprintf("%s|%d", cs.src, res.SchedHash), nontrivial)
 			r.hist(fmt.Sprintf("jobs:%s", c01Bucket(len(res.Jobs))))
+			if strings.HasPrefix(bad, "skip ") {
+				r.hist("skipped:" + strings.SplitN(bad, " ", 3)[1] + " (outside the domain: split collections disagree)")
+				continue
+			}
 			if bad != "" {
 				r.hist("driver:bad-reply")
 				r.violate(Violation{Kind: "correspondence", Key: "C01:driver-bad-reply",
@@ -498,7 +500,7 @@ func runC01(c *Ctx) {
 			}
 			reported[key]++
 			shrunk := false
-			if !cs.corpus && shrinks < 3 && time.Since(start) < 70*time.Second {
+			if !cs.corpus && shrinks < 3 && (c.Thorough || time.Since(start) < 60*time.Second) {
 				shrinks++
 				if shrinker == nil || shrinker.cmd == nil {
 					shrinker = c01StartWorker()
